@@ -16,6 +16,12 @@ Theorem C20_invert_perm : forall perm i, NoDup perm -> (forall j, In j perm -> j
 Proof. exact invert_perm_spec. Qed.
 Print Assumptions C20_invert_perm.
 
+Theorem C20_invert_perm_negative_axes : forall perm i, NoDup (map (normz (length perm)) perm) ->
+  (forall j, In j perm -> (- Z.of_nat (length perm) <= j < Z.of_nat (length perm))%Z) -> i < length perm ->
+  nth (normz (length perm) (nth i perm 0%Z)) (invert_perm_z perm) 0 = i.
+Proof. exact invert_perm_z_spec. Qed.
+Print Assumptions C20_invert_perm_negative_axes.
+
 (* prefetch_to_device: items in order, each once, then stop -- or the source's exception after the items before it *)
 Theorem C20_prefetch_to_device_order : forall size items fail, 1 <= size ->
   prefetch_to_device size items fail = map Item items ++ [term fail].
